@@ -10,6 +10,9 @@
  *        K:fail=ERRNO     op K fails with ERRNO and has no effect (fclose: the stream is closed, EOF returned)
  *        K:full=J         op K is a write: after J bytes the device is full (fd redirected to /dev/full);
  *                         the error surfaces wherever libc flushes, as with a real ENOSPC
+ *        K:glitch=J       op K is a write: after J bytes the device is full for ONE buffer (the next 4097 bytes), then
+ *                         accepts data again: an intermediate flush fails, the final one succeeds - only the stream's
+ *                         sticky error flag (ferror) still knows
  *
  * Logical operations: consecutive writes (fputc/fwrite/fprintf) to one stream are ONE op, so are
  * consecutive freads / fgets / read()s on one stream or fd.
@@ -39,11 +42,11 @@ static long g_op = -1;          /* index of the current logical op */
 static int g_last_kind;         /* 0 none, 1 write, 2 fread, 3 read(fd) */
 static void *g_last_obj;
 
-struct plan { long k; int kind; long arg; };   /* kind 1 crash 2 crashw 3 fail 4 full */
+struct plan { long k; int kind; long arg; };   /* kind 1 crash 2 crashw 3 fail 4 full 5 glitch */
 static struct plan g_plan[MAXPLAN];
 static int g_nplan;
 
-struct tstream { FILE *fp; char path[512]; long written; long limit; int limit_kind; int fail_close; };
+struct tstream { FILE *fp; char path[512]; long written; long limit; int limit_kind; int fail_close; long restore_at; int saved_fd; };
 static struct tstream g_ts[MAXT];
 struct tfd { int fd; char path[512]; };
 static struct tfd g_tf[MAXT];
@@ -125,6 +128,7 @@ static void init(void)
          if (!strcmp(c, "crash")) p->kind = 1;
          else if (!strncmp(c, "crashw=", 7)) { p->kind = 2; p->arg = atol(c + 7); }
          else if (!strncmp(c, "fail=", 5)) { p->kind = 3; p->arg = errno_of(c + 5); }
+         else if (!strncmp(c, "glitch=", 7)) { p->kind = 5; p->arg = atol(c + 7); }
          else if (!strncmp(c, "full=", 5)) { p->kind = 4; p->arg = atol(c + 5); }
          else g_nplan--;
       }
@@ -192,7 +196,7 @@ static FILE *do_fopen(const char *path, const char *mode, int is64)
       {
          if (!g_ts[i].fp)
          {
-            g_ts[i].fp = fp; g_ts[i].written = 0; g_ts[i].limit = -1; g_ts[i].limit_kind = 0; g_ts[i].fail_close = 0;
+            g_ts[i].fp = fp; g_ts[i].written = 0; g_ts[i].limit = -1; g_ts[i].limit_kind = 0; g_ts[i].fail_close = 0; g_ts[i].restore_at = -1; g_ts[i].saved_fd = -1;
             strncpy(g_ts[i].path, path, sizeof(g_ts[i].path) - 1);
             break;
          }
@@ -225,7 +229,7 @@ static void before_write(struct tstream *t, FILE *fp)
    {
       struct plan *p = new_op(1, fp);
       logf_("%ld write %s\n", g_op, rel(t->path));
-      if (p && (p->kind == 2 || p->kind == 4)) { t->limit = t->written + p->arg; t->limit_kind = p->kind; }
+      if (p && (p->kind == 2 || p->kind == 4 || p->kind == 5)) { t->limit = t->written + p->arg; t->limit_kind = p->kind; }
       if (p && p->kind == 3) { t->limit = t->written; t->limit_kind = 4; }
    }
 }
@@ -233,6 +237,13 @@ static void before_write(struct tstream *t, FILE *fp)
 /* called before each byte: enforce the limit */
 static void at_byte(struct tstream *t, FILE *fp)
 {
+   if (t->restore_at >= 0 && t->written == t->restore_at)
+   {
+      fflush(fp);                       /* fails: the stream's error flag is set, the block is lost */
+      if (t->saved_fd >= 0) { dup2(t->saved_fd, fileno(fp)); syscall(SYS_close, t->saved_fd); t->saved_fd = -1; }
+      logf_("%ld GLITCH over after %ld bytes\n", g_op, t->written);
+      t->restore_at = -1;
+   }
    if (t->limit >= 0 && t->written == t->limit)
    {
       fflush(fp);
@@ -241,6 +252,7 @@ static void at_byte(struct tstream *t, FILE *fp)
          logf_("%ld CRASHW after %ld bytes\n", g_op, t->written);
          _exit(137);
       }
+      if (t->limit_kind == 5) { t->saved_fd = dup(fileno(fp)); t->restore_at = t->written + 4097; }
       int fd = syscall(SYS_open, "/dev/full", O_WRONLY);
       if (fd >= 0) { dup2(fd, fileno(fp)); syscall(SYS_close, fd); }
       logf_("%ld FULL after %ld bytes\n", g_op, t->written);
